@@ -159,15 +159,15 @@ class DataPath:
         REPLACE = "path"
         ESC_CODE = rf"\{REPLACE}"
         is_escaped = False
-        for k in list(spec.keys()):
+        unescaped = {}  # (a new mapping: the caller's spec is not modified)
+        for k, v in spec.items():
             # (the "path" key is recognised in any letter case, and so is its escaped form)
             if isinstance(k, str) and ESC_CODE in k.lower():
                 is_escaped = True
-                spec_val = spec.pop(k)
-                k_new = re.sub(re.escape(ESC_CODE), lambda m: m.group()[1:], k, flags=re.I)
-                spec[k_new] = spec_val
+                k = re.sub(re.escape(ESC_CODE), lambda m: m.group()[1:], k, flags=re.I)
+            unescaped[k] = v
         if is_escaped:
-            return spec
+            return unescaped
 
         if len(spec) > 1:
             raise MalformedDataPathSpec(
